@@ -1518,6 +1518,16 @@ impl Gc {
     }
 }
 
+/// Whether the object whose value starts at `addr` has been reclaimed. Only meaningful while
+/// quarantine has been on for the whole life of the object (freed blocks are then never reused).
+#[cfg(gluon_verif)]
+pub unsafe fn verif_freed_at(addr: usize) -> bool {
+    unsafe {
+        let header = (addr as *const u8).offset(-(GcHeader::value_offset() as isize)) as *const GcHeader;
+        (*header).freed.get()
+    }
+}
+
 #[cfg(gluon_verif)]
 impl<T: ?Sized> GcPtr<T> {
     /// Identity of the heap which allocated this object
